@@ -23,6 +23,43 @@ def make_case(rng, thorough=False):
             'reuse': rng.random() < 0.4, 'sseed': rng.randint(0, 2**31 - 1), 'pick': rng.random(), 'sims': rng.choice([3, 8, 13])}
 
 
+def codes_of(arr, sims, mdim):
+    """[..., planes, nbytes] bit-parallel -> [..., sims] codes restricted to the first mdim planes"""
+    bits = np.unpackbits(np.asarray(arr, dtype=np.uint8), axis=-1, bitorder='little')[..., :sims]
+    out = np.zeros(bits.shape[:-2] + (sims,), dtype=np.int64)
+    for pl in range(mdim): out += bits[..., pl, :].astype(np.int64) << pl
+    return out
+
+
+def digits(codes): return ''.join(str(int(v)) for v in codes)
+
+
+def model_cblog(c, ls, m, sims, strip, x=None, V=None):
+    """driver `cblog`: call log (lines, values handed over), final line values and fan-out of x in the MODEL (Model/Callback.lean)"""
+    mdim = {2: 1, 4: 2, 8: 3}[m]
+    s0 = codes_of(ls.s[0], sims, mdim)
+    rows = '~' if s0.shape[0] == 0 else ','.join(digits(r) for r in s0)
+    order = ','.join(str(n.index) for n in c.topological_order()) or '~'
+    force = '~' if x is None else digits(codes_of(V[np.newaxis], sims, mdim)[0])
+    ans = common.run_driver([f"cblog {m} {int(strip)} {order} {'-' if x is None else x} {force} {rows} {circ.dump_net(c)}"])[0]
+    parts = ans.split(';')
+    if len(parts) != 4: raise RuntimeError('cblog answer: ' + ans[:200])
+    ints = lambda t: [int(v) for v in t.split(',') if v != '']
+    return {'calls': ints(parts[0]), 'vals': [v for v in parts[1].split(',') if v != ''], 'final': [v for v in parts[2].split(',') if v != ''],
+            'fanout': ints(parts[3])}
+
+
+def tie_log(real_log, model, sims, mdim, what):
+    """real recorded calls [(line, shape, view copy)] vs the model's call log: same lines in the same order, same values handed over"""
+    real_calls = [l[0] for l in real_log]
+    if real_calls != model['calls']: return f'{what}: real calls {real_calls[:30]} != model calls {model["calls"][:30]}'
+    for k, (li, _, v) in enumerate(real_log):
+        rv = digits(codes_of(v, sims, mdim))
+        if k >= len(model['vals']) or rv != model['vals'][k]:
+            return f'{what}: call {k} (line {li}) real value {rv} != model value {model["vals"][k] if k < len(model["vals"]) else None}'
+    return None
+
+
 def sim_run(c, m, sims, stim, strip, reuse, cb=None):
     from kyupy import logic
     from kyupy.logic_sim import LogicSim
@@ -48,6 +85,7 @@ def eval_case(case):
     # reference: no callback, no reuse (all line values stay in memory)
     ref, ref_out = sim_run(c, m, sims, stim, case['strip'], False)
     exp_calls = [int(r[1]) for r in np.array(ref.ops) if int(r[1]) < len(c.lines)]
+    case['_scratch'] = len(ref.ops) - len(exp_calls)      # rows writing the scratch slot: evaluated, not reported
     # (a) recording callback
     class Rec(list):        # a callable that is FALSY until it has been called (an empty list): still a callback
         def __call__(self, line, v): self.append((getattr(line, 'index', line), tuple(v.shape), v.copy()))
@@ -58,6 +96,13 @@ def eval_case(case):
     if case['pick'] < 0.4: log = rec = Rec()
     ls, out = sim_run(c, m, sims, stim, case['strip'], case['reuse'], rec)
     got_calls = [l[0] for l in log]
+    tie = None
+    try:
+        mrec = model_cblog(c, ls, m, sims, case['strip'])
+        tie = tie_log(list(log), mrec, sims, mdim, 'recording callback')
+    except common.DriverError: raise
+    except Exception as ex: tie = f'cblog (recording): {type(ex).__name__}: {ex}'[:300]
+    case['_tie'] = tie
     if got_calls != exp_calls:
         return False, {'clause': 'once-in-order', 'calls': got_calls[:30]}, {'calls': exp_calls[:30]}
     nbytes = (sims - 1) // 8 + 1
@@ -74,10 +119,25 @@ def eval_case(case):
     consts = [l for l in exp_calls if c.lines[l].driver.kind.lower() in ('__const0__', '__const1__', 'tieh', 'tiel')]
     if consts and int(case['pick'] * 1000) % 3 == 0: x = consts[int(case['pick'] * 7919) % len(consts)]    # overwrite a tie cell's line
     V = logic.mv_to_bp(rs.choice(dom, size=(1, sims)).astype(np.uint8))[0][:mdim]
-    seen_before = {}
+    case['_force_hyp'] = 'line' if x < len(c.lines) else 'OUTSIDE'
+    log2 = []
     def inj(line, v):
+        log2.append((line.index, tuple(v.shape), v.copy()))
         if line.index == x: v[...] = V
     ls2, out2 = sim_run(c, m, sims, stim, case['strip'], False, inj)
+    mfrc = None
+    if tie is None:
+        try:
+            mfrc = model_cblog(c, ls2, m, sims, case['strip'], x, V)
+            tie = tie_log(log2, mfrc, sims, mdim, f'overwriting callback on line {x}')
+            if tie is None:
+                for li in exp_calls:       # final value of every evaluated line (no reuse: all stay in memory)
+                    rv = digits(codes_of(ls2.c[ls2.c_locs[li]], sims, mdim))
+                    if rv != mfrc['final'][li]:
+                        tie = f'overwriting callback on line {x}: final value of line {li} real {rv} != model {mfrc["final"][li]}'; break
+        except common.DriverError: raise
+        except Exception as ex: tie = f'cblog (overwriting): {type(ex).__name__}: {ex}'[:300]
+        case['_tie'] = tie
     # modified circuit: cut line x, drive its reader from a fresh input
     c2 = pickle.loads(base64.b64decode(case['circuit']))
     lx = c2.lines[x]
@@ -102,6 +162,13 @@ def eval_case(case):
     for li in exp_calls[:exp_calls.index(x)]:
         if not np.array_equal(ls2.c[ls2.c_locs[li]], ref.c[ref.c_locs[li]]):
             return False, {'clause': 'upstream-unchanged', 'injected': x, 'line': li}, {'unchanged': True}
+    # frame (C16.callback_force_frame): evaluated lines outside the fan-out of x (also those scheduled later) keep the reference values
+    if mfrc is not None and tie is None:
+        fo = set(mfrc['fanout'])
+        case['_frame_later'] = sum(1 for li in exp_calls[exp_calls.index(x) + 1:] if li not in fo)
+        for li in exp_calls:
+            if li not in fo and not np.array_equal(ls2.c[ls2.c_locs[li]], ref.c[ref.c_locs[li]]):
+                return False, {'clause': 'frame-outside-fanout', 'injected': x, 'line': li}, {'unchanged': True}
     # (d) the injection leaves nothing behind: a plain propagation on the SAME object afterwards is fault-free
     ls2.s[0] = logic.mv_to_bp(stim); ls2.s_to_c()
     with common.quiet(): ls2.c_prop()
@@ -120,9 +187,15 @@ def oracle(ck, n, thorough=False):
         except Exception as ex:
             ok, obs, exp = False, {'raised': f'{type(ex).__name__}: {ex}'[:300]}, None
         hyp_tag = common.allcirc_hyp(ck, pickle.loads(base64.b64decode(cs['circuit'])), [cs['strip']], 'C16')
+        tie, fh, later, scr = cs.pop('_tie', 'not-run'), cs.pop('_force_hyp', 'none'), cs.pop('_frame_later', 0), cs.pop('_scratch', 0)
         ck.case(key=(cs['circuit'][:80], cs['m'], cs['strip'], cs['reuse'], round(cs['pick'], 3)),
                 sample={k: v for k, v in cs.items() if k != 'circuit'},
-                tag=[f"m:{cs['m']}", f"strip:{cs['strip']}", f"reuse:{cs['reuse']}", f"sims:{cs['sims']}", hyp_tag])
+                tag=[f"m:{cs['m']}", f"strip:{cs['strip']}", f"reuse:{cs['reuse']}", f"sims:{cs['sims']}", hyp_tag,
+                     f"force-hyp:{fh}", f"tie-cblog:{'ok' if tie is None else 'BROKEN'}", f"frame-later-lines:{min(later, 3)}", f"scratch-rows:{min(scr, 2)}"])
+        if tie is not None and ok:
+            ck.broken_tie('call-log model correspondence (Model/Callback.lean cbLog/execCb vs LogicSim.c_prop(inject_cb))', str(tie)[:400], inp=cs)
+        if fh == 'OUTSIDE':
+            ck.broken_tie('hypothesis x < nl of the force theorems', 'the harness forced an index that is no line', inp=cs)
         if not ok:
             ck.violation('inject-cb', 'inject_cb: ' + str((obs or {}).get('clause', 'run')), cs, obs, exp)
 
@@ -132,7 +205,8 @@ def run(ck):
     n = 90 if ck.tier == 'quick' else 1500
     oracle(ck, n, ck.tier == 'thorough')
     if ck.broken and not ck.violations: oracle(ck, n * 5, ck.tier == 'thorough')
-    ck.assumptions += ['the callback sees lines only (ops whose output pin is unconnected write the scratch slot and are not reported)',
+    ck.assumptions += ['the callback sees lines only (ops whose output pin is unconnected write the scratch slot and are not reported): the model cbLog filters them as the code does; call log (lines and values handed over, recording and overwriting callback) and final line values are compared with the model through the driver command cblog on every case (tag tie-cblog)',
+                       'the force theorems carry the hypothesis that the forced index is a line (x < nl); evaluated per case (tag force-hyp)',
                        'with strip_forks the stripped fan-out lines are not evaluated and therefore not reported',
                        'the all-circuits theorems (callback_all_circuits, callback_force_*, callback_upstream_all_circuits) speak about the rows of the Lean SimOps model; their hypotheses wfB/orderOKB are evaluated by the driver on every real circuit and order (tag allcirc-hyp)']
     return ck.finish(RULE)
@@ -140,5 +214,6 @@ def run(ck):
 
 def replay(rep):
     ok, obs, exp = eval_case(rep['input'])
+    if ok and rep['input'].get('_tie'): ok, obs, exp = False, {'tie': rep['input']['_tie']}, None
     print(json.dumps({'ok': ok, 'observed': obs, 'expected': exp}, default=str))
     return 0 if ok else 1
